@@ -66,6 +66,13 @@ func (b BranchInstr) Execute(env *Zlisp) error {
 	if err != nil {
 		return err
 	}
+	// the test is made on the value: an element a[i] or a field h.k of the
+	// infix syntax arrives here as a reference (a Selector), as it does at
+	// the arithmetic and comparison functions, which follow it too.
+	expr, err = env.RValue(expr)
+	if err != nil {
+		return err
+	}
 	if b.direction == IsTruthy(expr) {
 		return JumpInstr{addpc: b.location}.Execute(env)
 	}
